@@ -75,8 +75,8 @@ pub fn encode(lat: f64, lon: f64, i: u32) -> (u32, u32, f64) {
 
 #[derive(Clone, Copy, Debug, PartialEq)]
 pub enum RefDecode {
-    /// NL(Rlat_even) != NL(Rlat_odd)
-    ZoneMismatch,
+    /// NL(Rlat_even) != NL(Rlat_odd); carries both recovered latitudes (for the guard band)
+    ZoneMismatch { rlat_e: f64, rlat_o: f64 },
     /// recovered latitude of the latest report outside [-90, 90]
     LatOutOfRange,
     /// only the older report's recovered latitude is outside [-90, 90] (verdict left open)
@@ -113,7 +113,7 @@ pub fn decode(yz0: u32, xz0: u32, yz1: u32, xz1: u32, latest: u32) -> RefDecode 
     let nl_e = nl(rlat_e);
     let nl_o = nl(rlat_o);
     if nl_e != nl_o {
-        return RefDecode::ZoneMismatch;
+        return RefDecode::ZoneMismatch { rlat_e, rlat_o };
     }
     let nlv = nl_e as i64;
     let n = (nlv - latest as i64).max(1);
